@@ -156,7 +156,7 @@ func focusOf(prop string) map[string]bool {
 		"C05": {"determinism"},
 		"C06": {"struct", "attrs", "ns", "errs"},
 		"C07": {"struct", "ns", "errs"},
-		"C08": {"struct", "attrs", "errs"},
+		"C08": {"struct", "attrs", "errs", "frame"},
 		"C12": {"ro", "ns", "imod"},
 		"C13": {"struct", "attrs", "ns", "errs"},
 		"C17": {"find"},
@@ -277,6 +277,11 @@ func judge(c *Case) *core.Verdict {
 			}
 		}
 	}
+	if foc["frame"] {
+		if r := frameCheck(c, obs); r != "" {
+			return fail("untargeted-node-changed", "%s", r)
+		}
+	}
 	if foc["heap"] {
 		roots, entries, _ := Heap(ms, names)
 		ev, _ := json.Marshal(map[string]any{"ev": "heap", "roots": roots, "entries": entries, "errs": len(errs)})
@@ -391,7 +396,7 @@ func gen(body []byte) *core.Verdict {
 func designRun(r *core.Run, prop string, cfgs []string, col *core.Collector) {
 	core.CaseSuffix = `,"prop":"` + prop + `"}`
 	for _, cfg := range cfgs {
-		r.DirectionAC("schema", core.TLCOpts{Module: "MCSchema", Cfg: cfg, Workers: 12, HeapGB: 16, Timeout: 0}, nil, col)
+		r.DirectionAC("schema", core.TLCOpts{Module: "MCS_" + cfg, Cfg: "MCS_" + cfg + ".cfg", Workers: 12, HeapGB: 16, Timeout: 0}, nil, col)
 	}
 	core.CaseSuffix = ""
 }
@@ -401,7 +406,7 @@ func init() {
 		r.Rule = "A: every program of the augment space (base module with container, list, choice/case with a shorthand member, uses copies, rpc with and without written input/output, notification; augmenting modules b and c with one augment each, targets drawn from base paths, paths another augment creates (chains), an absent path and a leaf, payloads leaf / container with config false / uses of the augmenter's grouping / two siblings / a name that collides), explored by TLC through every order of the augment loop's work list; every distinct outcome replayed: Process error presence, every path, kind and Namespace() compared. Non-trivial = every case (each has two augments)."
 		r.Exhaustive = true
 		r.Assumptions = []string{"implicit-case namespace, a wrong prefix on a non-first step and uses-augment are outside the claim", "the real map iteration order is whatever the Go runtime picks in the run (orders are exhaustive in the model only)"}
-		cfgs := []string{"MCSchema_aug_quick.cfg"}
+		cfgs := []string{"aug_quick"}
 		designRun(r, "C07", cfgs, nil)
 	}
 }
@@ -419,25 +424,114 @@ func init() {
 		r.Exhaustive = true
 		r.Assumptions = []string{"error texts are not compared, only presence", "bounded program spaces"}
 		col := core.NewCollector()
-		designRun(r, "C04", tierCfgs(r, []string{"MCSchema_aug_quick.cfg", "MCSchema_uses_quick.cfg"}, []string{"MCSchema_aug_sub.cfg", "MCSchema_aug_two.cfg", "MCSchema_cfg.cfg", "MCSchema_uses.cfg"}), col)
+		designRun(r, "C04", tierCfgs(r, []string{"aug_quick", "uses_quick"}, []string{"aug_sub", "aug_two", "cfg", "uses"}), col)
 		r.ValidateTrace("schema", col, core.TLCOpts{Module: "SchemaTrace", Cfg: "SchemaTrace.cfg", Timeout: 0, HeapGB: 8})
 	}
 	core.Checks["C12"] = func(r *core.Run) {
 		r.Rule = "A: the config space (config unset/true/false at three depths; the second and third level placed by plain nesting, uses, a shorthand choice member or case, or an augment from another module; the whole tree in the module or in a submodule; the same under rpc input, rpc output and notification without config statements) and the augment space; for every node of every clean outcome ReadOnly(), Namespace() and InstantiatingModule() are compared with the specification's reading of who wrote which statement. Non-trivial = every case."
 		r.Exhaustive = true
 		r.Assumptions = []string{"config statements inside rpc / action / notification are outside the claim", "the namespace of an implicit case itself is not compared"}
-		designRun(r, "C12", tierCfgs(r, []string{"MCSchema_cfg.cfg", "MCSchema_aug_quick.cfg"}, []string{"MCSchema_aug_sub.cfg", "MCSchema_uses.cfg"}), nil)
+		designRun(r, "C12", tierCfgs(r, []string{"cfg", "aug_quick"}, []string{"aug_sub", "uses"}), nil)
 	}
 	core.Checks["C06"] = func(r *core.Run) {
 		r.Rule = "A: the uses space: a grouping g1 of four shapes (container with default leaf and nested uses; list with min-elements and a leaf-list with defaults; config-false container with choice/case and shorthand member; container with an inner grouping shadowing the outer g2) defined in the imported module, in its submodule or in the using module, used at two sites (container, list, rpc input, notification, through another grouping, inside a case), names inside it (g2) shadowed by a same-named grouping of the user; with one later mutation of the first instance (augment, deviate not-supported, deviate add config) from a third module; every path, kind, attribute and Namespace() of every instance compared with the inlined-copy semantics of Schema.tla. Non-trivial = every case."
 		r.Exhaustive = true
 		r.Assumptions = []string{"refine and uses-augment are outside the claim", "a submodule referring to its owner's groupings is not generated (RFC 6020 and 7950 differ)"}
-		designRun(r, "C06", tierCfgs(r, []string{"MCSchema_uses_quick.cfg"}, []string{"MCSchema_uses.cfg"}), nil)
+		designRun(r, "C06", tierCfgs(r, []string{"uses_quick"}, []string{"uses"}), nil)
 	}
 	core.Checks["C17"] = func(r *core.Run) {
 		r.Rule = "A: on every clean outcome of the augment space (and the uses / config spaces in the thorough tier): for every node of every module tree, Find of its absolute prefixed path from the module's own root, from the root of every importing module (with that module's prefix) and from a deep node of each, compared by pointer identity; the relative ../ path between every pair of nodes up to depth 3; and every absolute path with an absent step appended or substituted must return nothing. Non-trivial = every case."
 		r.Exhaustive = true
 		r.Assumptions = []string{"starts at rpc input/output that Find creates on demand are covered by C04"}
-		designRun(r, "C17", tierCfgs(r, []string{"MCSchema_aug_quick.cfg"}, []string{"MCSchema_uses.cfg", "MCSchema_cfg.cfg", "MCSchema_aug_sub.cfg"}), nil)
+		designRun(r, "C17", tierCfgs(r, []string{"aug_quick"}, []string{"uses", "cfg", "aug_sub"}), nil)
+	}
+}
+
+// frameCheck: the same modules without the deviating modules, processed by the
+// real library; every node that no deviation targets must be identical.
+func frameCheck(c *Case, obs map[string]map[string]*Observed) string {
+	var targets [][]string // module, path...
+	base := Prog{Mods: map[string]Module{}, IgnoreNS: c.Prog.IgnoreNS}
+	for n, m := range c.Prog.Mods {
+		dev := false
+		for _, s := range m.Body {
+			if s.Kw == "deviation" {
+				dev = true
+				var qs []QN
+				json.Unmarshal(s.Arg, &qs)
+				tm := n
+				if len(qs) > 0 {
+					if t, ok := m.Imports[qs[0].P]; ok {
+						tm = t
+					}
+				}
+				t := []string{tm}
+				for _, q := range qs {
+					t = append(t, q.N)
+				}
+				targets = append(targets, t)
+			}
+		}
+		if !dev {
+			base.Mods[n] = m
+		}
+	}
+	if len(targets) == 0 {
+		return ""
+	}
+	ms, errs, perr := Load(&base, base.names())
+	if perr != nil || len(errs) > 0 {
+		return ""
+	}
+	targeted := func(mod string, p []string) bool {
+		for _, t := range targets {
+			if t[0] != mod || len(t)-1 > len(p) {
+				continue
+			}
+			same := true
+			for i := 1; i < len(t); i++ {
+				if p[i-1] != t[i] {
+					same = false
+				}
+			}
+			if same {
+				return true
+			}
+		}
+		return false
+	}
+	for _, n := range base.names() {
+		if m := ms.Modules[n]; m != nil {
+			before := Flatten(yang.ToEntry(m))
+			after := obs[n]
+			for p, b := range before {
+				if targeted(n, b.P) {
+					continue
+				}
+				a, ok := after[p]
+				if !ok {
+					return fmt.Sprintf("module %s path %s exists without the deviating modules and is gone with them", n, p)
+				}
+				af, bf := a.Fact, b.Fact
+				if fmt.Sprintf("%+v|%s", af, a.Imod) != fmt.Sprintf("%+v|%s", bf, b.Imod) {
+					return fmt.Sprintf("module %s path %s: without the deviating modules %+v, with them %+v", n, p, bf, af)
+				}
+			}
+			for p, a := range after {
+				if _, ok := before[p]; !ok && !targeted(n, a.P) {
+					return fmt.Sprintf("module %s path %s appears only with the deviating modules", n, p)
+				}
+			}
+		}
+	}
+	return ""
+}
+
+func init() {
+	core.Checks["C08"] = func(r *core.Run) {
+		r.Rule = "A: the deviation spaces: 10 targets (leaf with / without default, mandatory leaf, leaf-list with bounds, leaf-list with defaults, list with bounds, container, a leaf inside a uses copy, a leaf grafted by an augment of another module, an absent node) x 24 deviate statements (not-supported under both option settings, an unknown kind, add / replace / delete of config, default, mandatory, min/max-elements, units, type incl. an unresolvable type and a three-property replace) restricted to the combinations the statement pins down; every ordered pair of deviate statements in one deviation on four targets; two deviations in one module and in two modules; outcome per RFC 7950 7.20.3 in written order by Schema.tla, Frame invariant by TLC; every path, kind and attribute of the real trees compared, and the same modules are processed without the deviating modules to compare every untargeted node. Non-trivial = every case."
+		r.Exhaustive = true
+		r.Assumptions = []string{"must / unique deviations, delete default on a leaf-list, replace default where none exists, delete of an implicit element bound are outside the claim (DESIGN.md D.1)"}
+		designRun(r, "C08", tierCfgs(r, []string{"dev1", "dev2", "dev3"}, nil), nil)
 	}
 }
